@@ -1451,3 +1451,187 @@ Proof.
     + exfalso. apply NA. destruct (split_at_Some _ _ _ _ Es) as [-> _]. apply in_or_app. simpl; auto.
     + rewrite E2. reflexivity.
 Qed.
+
+(* ================= Part H: Move is n mod Len steps; what Unlink removes ================= *)
+
+Lemma chain_nth_path nx pv : forall xs a b i, chain nx pv a xs b -> i < S (length xs) ->
+  nx (nth i (a :: xs ++ [b]) a) = Some (nth (S i) (a :: xs ++ [b]) a) /\
+  pv (nth (S i) (a :: xs ++ [b]) a) = Some (nth i (a :: xs ++ [b]) a).
+Proof.
+  induction xs as [|x t IH]; intros a b i C Hi.
+  - simpl in Hi. assert (i = 0) by lia. subst i. simpl in *. auto.
+  - destruct C as (C1 & C2 & C3). destruct i as [|i].
+    + simpl. auto.
+    + specialize (IH x b i C3 ltac:(simpl in Hi; lia)).
+      change (nth (S i) (a :: (x :: t) ++ [b]) a) with (nth i (x :: t ++ [b]) a).
+      change (nth (S (S i)) (a :: (x :: t) ++ [b]) a) with (nth (S i) (x :: t ++ [b]) a).
+      rewrite (nth_indep _ a x), (nth_indep (x :: t ++ [b]) a x); auto; simpl; rewrite app_length; simpl; simpl in Hi; lia.
+Qed.
+
+Lemma cycle_nth nx pv r A i :
+  chain nx pv r A r -> i < S (length A) ->
+  let c := r :: A in let L := S (length A) in
+  nx (nth i c r) = Some (nth ((i + 1) mod L) c r) /\ pv (nth ((i + 1) mod L) c r) = Some (nth i c r).
+Proof.
+  intros C Hi c L. destruct (chain_nth_path nx pv A r r i C Hi) as [E1 E2].
+  assert (N1 : nth i (r :: A ++ [r]) r = nth i c r).
+  { unfold c. change (r :: A ++ [r]) with ((r :: A) ++ [r]). apply app_nth1. simpl. lia. }
+  assert (N2 : nth (S i) (r :: A ++ [r]) r = nth ((i + 1) mod L) c r).
+  { unfold c, L. destruct (Nat.eq_dec (S i) (S (length A))) as [E|N].
+    - rewrite Nat.add_1_r, E, Nat.mod_same by lia.
+      change (r :: A ++ [r]) with ((r :: A) ++ [r]). rewrite app_nth2 by (simpl; lia).
+      simpl length. rewrite Nat.sub_diag. reflexivity.
+    - rewrite Nat.mod_small by lia. rewrite Nat.add_1_r.
+      change (r :: A ++ [r]) with ((r :: A) ++ [r]). apply app_nth1. simpl. lia. }
+  rewrite N1, N2 in *. auto.
+Qed.
+
+Section MoveMod.
+Variables (h : rheap) (r : nat) (A : list nat).
+Hypothesis C : chain (rnx h) (rpv h) r A r.
+Hypothesis B : forall y, In y (r :: A) -> y < length h.
+Local Notation c := (r :: A).
+Local Notation L := (S (length A)).
+
+Lemma nth_c_lt i : i < L -> nth i c r < length h.
+Proof. intro Hi. apply B. apply nth_In. simpl. lia. Qed.
+
+Lemma move_next_mod : forall k i, i < L ->
+  move_loop r_next k (Some (nth i c r)) h = Ok (Some (nth ((i + k) mod L) c r)).
+Proof.
+  induction k as [|k IH]; intros i Hi; cbn [move_loop].
+  - rewrite Nat.add_0_r, Nat.mod_small by lia. reflexivity.
+  - destruct (rhget_eq h _ (nth_c_lt i Hi)) as (cell & -> & En & _). cbn [bind]. rewrite En.
+    destruct (cycle_nth _ _ r A i C Hi) as [E _].  rewrite E.
+    rewrite IH by (apply Nat.mod_upper_bound; lia).
+    rewrite Nat.add_mod_idemp_l by lia. replace (i + 1 + k) with (i + S k) by lia. reflexivity.
+Qed.
+
+Lemma pv_nth i : i < L -> rpv h (nth i c r) = Some (nth ((i + (L - 1)) mod L) c r).
+Proof.
+  intro Hi. set (j := (i + (L - 1)) mod L).
+  assert (Hj : j < L) by (apply Nat.mod_upper_bound; lia).
+  destruct (cycle_nth _ _ r A j C Hj) as [_ E]. 
+  replace ((j + 1) mod L) with i in E; [exact E|].
+  unfold j. rewrite Nat.add_mod_idemp_l by lia.
+  replace (i + (L - 1) + 1) with (i + 1 * L) by lia.
+  rewrite Nat.mod_add by lia. symmetry. apply Nat.mod_small. exact Hi.
+Qed.
+
+Lemma move_prev_mod : forall k i, i < L ->
+  move_loop r_prev k (Some (nth i c r)) h = Ok (Some (nth ((i + k * (L - 1)) mod L) c r)).
+Proof.
+  induction k as [|k IH]; intros i Hi; cbn [move_loop].
+  - rewrite Nat.mul_0_l, Nat.add_0_r, Nat.mod_small by lia. reflexivity.
+  - destruct (rhget_eq h _ (nth_c_lt i Hi)) as (cell & -> & _ & Ep & _). cbn [bind]. rewrite Ep, (pv_nth i Hi).
+    rewrite IH by (apply Nat.mod_upper_bound; lia).
+    rewrite Nat.add_mod_idemp_l by lia.
+    replace (i + (L - 1) + k * (L - 1)) with (i + S k * (L - 1)) by lia. reflexivity.
+Qed.
+End MoveMod.
+
+(* Move(n) lands n mod Len steps forward (Z.modulo: for negative n that is |n| steps backward) *)
+Theorem ring_move_mod h a r n c :
+  RRep h a -> In r (concat (ra_cycles a)) -> fst (ext (ra_cycles a) r) = c ->
+  ring_Move (Some r) n h = Ok (Some (nth (Z.to_nat (n mod Z.of_nat (length c))) c r), h).
+Proof.
+  intros R I Ec. subst c. destruct (RRep_cycle _ _ _ R I) as (A & EA & C & ND & B). rewrite EA.
+  assert (Hr : r < length h) by (apply B; simpl; auto).
+  destruct (member_links _ _ _ R I) as (L1 & _).
+  destruct (rhget_eq h r Hr) as (cell & Eg & En & _).
+  unfold ring_Move. rewrite Eg. cbn [bind]. rewrite En, L1. cbn [ptr_eqb option_eqb].
+  set (L := S (length A)). assert (HL : Z.of_nat (length (r :: A)) = Z.of_nat L) by reflexivity. rewrite HL.
+  assert (L0 : 0 < L) by lia.
+  destruct (n <? 0)%Z eqn:Zn.
+  - apply Z.ltb_lt in Zn.
+    pose proof (move_prev_mod h r A C B (Z.to_nat (- n)) 0 L0) as E. fold L in E.
+    change (nth 0 (r :: A) r) with r in E. rewrite E. cbn [bind]. do 3 f_equal. f_equal.
+    apply Nat2Z.inj. rewrite Nat2Z.inj_mod, Z2Nat.id by (apply Z.mod_pos_bound; lia).
+    rewrite Nat.add_0_l, Nat2Z.inj_mul, Z2Nat.id by lia.
+    rewrite Nat2Z.inj_sub by lia.
+    replace (- n * (Z.of_nat L - Z.of_nat 1))%Z with (n + (- n) * Z.of_nat L)%Z by lia.
+    apply Z_mod_plus_full.
+  - apply Z.ltb_ge in Zn. destruct (0 <? n)%Z eqn:Zp.
+    + pose proof (move_next_mod h r A C B (Z.to_nat n) 0 L0) as E. fold L in E.
+      change (nth 0 (r :: A) r) with r in E. rewrite E. cbn [bind]. do 3 f_equal. f_equal.
+      apply Nat2Z.inj. rewrite Nat2Z.inj_mod, Z2Nat.id by (apply Z.mod_pos_bound; lia).
+      rewrite Nat.add_0_l, Z2Nat.id by lia. reflexivity.
+    + apply Z.ltb_ge in Zp. assert (n = 0%Z) by lia. subst n. rewrite Z.mod_0_l by lia. reflexivity.
+Qed.
+
+Lemma nth_split_firstn_skipn {A} (l : list A) k d : k < length l -> l = firstn k l ++ nth k l d :: skipn (S k) l.
+Proof.
+  revert k; induction l as [|x t IH]; intros [|k] H; simpl in *; try lia; auto.
+  f_equal. apply IH. lia.
+Qed.
+
+Lemma ext_first x A rest : ext ((x :: A) :: rest) x = (x :: A, rest).
+Proof. apply ext_cons_self. Qed.
+
+Lemma rot_to_mid x p q : ~ In x p -> rot_to x (p ++ x :: q) = Some (x :: q ++ p).
+Proof. intro N. unfold rot_to. rewrite split_at_split by auto. reflexivity. Qed.
+
+Lemma ext_head_cycle x p q rest : ~ In x p -> ext ((p ++ x :: q) :: rest) x = (x :: q ++ p, rest).
+Proof. intro N. unfold ext. cbn [extract]. rewrite rot_to_mid by auto. reflexivity. Qed.
+
+(* Unlink(n), n > 0, on the ring r :: A: the n mod Len nodes after r are removed and form the
+   returned ring; r keeps the others *)
+Theorem ring_unlink_mod h a r n A rest :
+  RRep h a -> In r (concat (ra_cycles a)) -> ext (ra_cycles a) r = (r :: A, rest) -> (0 < n)%Z ->
+  let k := Z.to_nat (n mod Z.of_nat (S (length A))) in
+  exists h', ring_Unlink (Some r) n h = Ok (Some (hd r A), h') /\
+             RRep h' (RA ((r :: skipn k A) :: cons_ne (firstn k A) rest) (ra_vals a)) /\ length h' = length h.
+Proof.
+  intros R I E Hn k.
+  destruct (RRep_cycle _ _ _ R I) as (A' & EA & C & ND & B). rewrite E in EA. cbn [fst] in EA. injection EA as <-.
+  assert (Hr : r < length h) by (apply B; simpl; auto).
+  set (L := S (length A)). assert (L0 : (0 < Z.of_nat L)%Z) by (unfold L; lia).
+  unfold ring_Unlink. replace (n <=? 0)%Z with false by (symmetry; apply Z.leb_gt; lia).
+  rewrite (ring_move_mod h a r (n + 1) (r :: A) R I) by (rewrite E; reflexivity). cbn [bind].
+  change (Z.of_nat (length (r :: A))) with (Z.of_nat L).
+  set (j := Z.to_nat ((n + 1) mod Z.of_nat L)). set (m := nth j (r :: A) r).
+  assert (Hk : (0 <= n mod Z.of_nat L < Z.of_nat L)%Z) by (apply Z.mod_pos_bound; lia).
+  assert (Hj : j = if Nat.eqb (S k) L then 0 else S k).
+  { unfold j, k. rewrite <- Zplus_mod_idemp_l. fold L.
+    destruct (Nat.eqb_spec (S (Z.to_nat (n mod Z.of_nat L))) L) as [Eq|Ne].
+    - replace (n mod Z.of_nat L + 1)%Z with (Z.of_nat L) by lia. rewrite Z_mod_same_full. reflexivity.
+    - rewrite Z.mod_small by lia. lia. }
+  assert (Hm : m < length h).
+  { apply B. apply nth_In. simpl. destruct (Nat.eqb_spec (S k) L); unfold L in *; lia. }
+  destruct (Link_sim h a r m R Hr Hm) as (h' & El & R' & L').
+  assert (Es : a_succ (ra_cycles a) r = hd r A) by (unfold a_succ; rewrite E; reflexivity).
+  rewrite Es in El. exists h'. split; [exact El|]. split; [|exact L'].
+  replace ((r :: skipn k A) :: cons_ne (firstn k A) rest) with (a_Link (ra_cycles a) r m); [exact R'|].
+  unfold a_Link. unfold a_touch at 2. rewrite E.
+  apply NoDup_cons_iff in ND as [NrA NDA].
+  destruct (Nat.eqb_spec (S k) L) as [Eq|Ne].
+  - (* all of A is removed: m = r *)
+    assert (m = r) by (unfold m; rewrite Hj; reflexivity). rewrite H.
+    unfold a_touch. rewrite ext_first.
+    destruct (a_link_cases ((r :: A) :: rest) r A rest (ext_first _ _ _)) as (-> & _).
+    assert (k = length A) by (unfold L in Eq; lia).
+    rewrite H0, skipn_all, firstn_all. reflexivity.
+  - assert (Hk' : k < length A) by (unfold k, L in *; lia).
+    assert (Em : m = nth k A r) by (unfold m; rewrite Hj; reflexivity).
+    pose proof (nth_split_firstn_skipn A k r Hk') as EAs. rewrite <- Em in EAs.
+    set (A1 := firstn k A) in *. set (B2 := skipn (S k) A) in *.
+    assert (Esk : skipn k A = m :: B2).
+    { rewrite EAs at 1. rewrite skipn_app.
+      assert (length A1 = k) by (unfold A1; rewrite firstn_length; lia).
+      rewrite H, Nat.sub_diag. rewrite <- H at 1. rewrite skipn_all. reflexivity. }
+    rewrite EAs in NDA, NrA. apply NoDup_app_iff in NDA as (D1 & D2 & D3).
+    apply NoDup_cons_iff in D2 as [NmB D2].
+    assert (NmA1 : ~ In m A1) by (intro X; apply (D3 _ X); simpl; auto).
+    rewrite in_app_iff in NrA. simpl in NrA.
+    assert (Nmr : m <> r) by (intros ->; tauto).
+    (* touching m rewrites r's cycle starting at m *)
+    rewrite Esk. unfold a_touch. rewrite EAs.
+    change ((r :: A1 ++ m :: B2) :: rest) with (((r :: A1) ++ m :: B2) :: rest).
+    rewrite ext_head_cycle by (simpl; intuition congruence).
+    (* and Link rewrites it starting at r again *)
+    change ((m :: B2 ++ r :: A1) :: rest) with (((m :: B2) ++ r :: A1) :: rest).
+    assert (Er : ext (((m :: B2) ++ r :: A1) :: rest) r = (r :: A1 ++ m :: B2, rest)).
+    { apply ext_head_cycle. simpl. intuition congruence. }
+    destruct (a_link_cases _ r _ rest Er) as (_ & Hsame & _).
+    rewrite (Hsame m A1 B2 Nmr eq_refl NmA1). reflexivity.
+Qed.
